@@ -70,6 +70,10 @@ def cases(tier, seed):
     # command sets as other toolkits send them: optional elements absent altogether (not present-but-empty)
     for name in msggen.CLASS_NAMES:
         yield {'cls': name, 'maxlen': 70, 'dslen': 9, 'mode': 'memory', 'lean': True}
+    # "data set present" as PS3.7 defines it: any Command Data Set Type other than 0101H (peers send 0000H, 0102H, ...)
+    for name in msggen.CLASS_NAMES:
+        for flag in (0x0000, 0x0102) + ((0xFFFF, 0x0100) if thorough else ()):
+            yield {'cls': name, 'maxlen': 70, 'dslen': 9, 'mode': 'memory', 'flag': flag}
     # a long fragment list: deviation-bounded compositions
     yield {'cls': 'CStoreRQMessage', 'maxlen': 12, 'dslen': 40, 'mode': 'memory'}
     yield {'cls': 'CFindRSPMessage', 'maxlen': 14, 'dslen': 9, 'mode': 'memory'}
@@ -116,6 +120,12 @@ class _Sock(object):
 
     def close(self):
         pass
+
+
+class _Timer(object):
+    def start(self):
+        pass
+    stop = restart = start
 
 
 class _Prov(object):
@@ -175,6 +185,8 @@ def run_case(case):
         for el in list(msg.command_set):
             if el.keyword not in keep:
                 del msg.command_set[el.tag]
+    if case.get('flag') is not None:
+        msg.command_set.CommandDataSetType = case['flag']
     msg.set_length()
     frags = [p.data_value_items[0] for p in msg.encode(pc, ml)]
     n = len(frags)
@@ -225,7 +237,7 @@ def run_case(case):
                     dec = fsm.DIMSEDecoder(contexts, store_in_file, get_file)
                 else:
                     prov = _Prov()
-                    sm = fsm.StateMachine(prov, None, store_in_file, get_file)
+                    sm = fsm.StateMachine(prov, _Timer(), store_in_file, get_file)
                     sm.accepted_contexts = contexts
                     sm.current_state = fsm.States.STA_7 if via == 'ar_6' else fsm.States.STA_6
                     prov.dul_socket = _Sock()
@@ -257,12 +269,21 @@ def run_case(case):
                             if via == 'release-between':
                                 # the local user requests release after PDU (ncomp mod groups) of the first message: AR-1, then
                                 # the rest of the message (and the second message) arrives in Sta7
+                                # (through the state machine's entry point, as the provider loop does it)
                                 if not second and gi == 1 + (ncomp % (len(groups) - 1)):
                                     prov.primitive = None
-                                    sm.current_state = sm.ar_1()
+                                    sm.action(fsm.Events.EVT_11)
+                                    if sm.current_state != fsm.States.STA_7:
+                                        viol.append((sig + ':state', 'release request in Sta6 led to state %r (%s)' % (sm.current_state, where)))
+                                        break
                                 meth = 'dt_2' if sm.current_state == fsm.States.STA_6 else 'ar_6'
                             prov.primitive = pdu_in
-                            nxt = getattr(sm, meth)()
+                            if via == 'release-between':
+                                state_before = sm.current_state
+                                sm.action(fsm.Events.EVT_10)
+                                nxt, sm.current_state = sm.current_state, state_before
+                            else:
+                                nxt = getattr(sm, meth)()
                             if nxt != sm.current_state:
                                 viol.append((sig + ':state', '%s returned state %r (%s)' % (via, nxt, where)))
                             got = len(prov.to_service_user.items)
@@ -318,6 +339,9 @@ def run_case(case):
                     got_cmd = {int(e.tag): e.value for e in rmsg.command_set}
                 except Exception as exc:
                     got_cmd = {'error': repr(exc)}
+                if case.get('flag') is not None and 0x0800 in got_cmd:
+                    # (0000,0800) has two meanings only: 0101H and "anything else"; which other value the receiver shows is its business
+                    got_cmd[0x0800] = sent_cmd[0x0800] if (got_cmd[0x0800] != 0x0101) == (sent_cmd[0x0800] != 0x0101) else got_cmd[0x0800]
                 if set(got_cmd) != set(sent_cmd) or any(str(got_cmd[k]) != str(sent_cmd[k]) for k in sent_cmd):
                     viol.append((sig + ':command-set', 'command set differs: got %r sent %r (%s)' % (got_cmd, sent_cmd, where)))
                 ds = rmsg.data_set
@@ -359,7 +383,7 @@ def run_case(case):
     finally:
         if tmpdir:
             shutil.rmtree(tmpdir, ignore_errors=True)
-    return {'viol': viol[:30], 'case': case if viol else None, 'key': (name, n, mode, ml, case.get('ts'), case.get('pad', case.get('dslen')), case.get('lean')),
+    return {'viol': viol[:30], 'case': case if viol else None, 'key': (name, n, mode, ml, case.get('ts'), case.get('pad', case.get('dslen')), case.get('lean'), case.get('flag')),
             'count': {'compositions': ncomp, 'reassemblies_checked': keys},
             'sample': dict(case, fragments=n, compositions=ncomp) if name in ('CStoreRQMessage',) and ml in (40, 12, 100) else None}
 
